@@ -194,8 +194,9 @@ func (matrix *DenseReal32Matrix) SLICE(rfrom, rto, cfrom, cto int) *DenseReal32M
   return &m
 }
 func (matrix *DenseReal32Matrix) AsDenseReal32Vector() DenseReal32Vector {
-  if matrix.cols < matrix.colMax - matrix.colOffset ||
-    (matrix.rows < matrix.rowMax - matrix.rowOffset) {
+  // a view (transposed, or fewer rows or columns than the storage block) does
+  // not own a contiguous row-major block: collect its elements
+  if matrix.transposed || matrix.rowMax > matrix.rows || matrix.colMax > matrix.cols {
     n, m := matrix.Dims()
     v := nilDenseReal32Vector(n*m)
     for i := 0; i < n; i++ {
